@@ -5,7 +5,8 @@ PID = "C07"
 RULE = ("seeded random trees; every case picks a node (root / inner / leaf, any depth) as save target, one of the three tree "
         "options, rooted or unrooted; file raw-walked and compared with the selection spec computed from the source objects "
         "(oracle) and with the Lean model; trees hold nodes of all five classes incl. Custom nodes with node-valued attributes "
-        "(public and private-looking attribute names) whose expected group content is stated without calling Custom.to_h5; non-trivial = target is not the root or tree option is not True; distinct by recipe hash")
+        "(public and private-looking attribute names) whose expected group content is stated without calling Custom.to_h5; 15 % of the deep cases RE-ARRANGE the tree first (a "
+        "first-level node cut off, or grafted under another tree's Root) and save a strict descendant of the moved node; non-trivial = target is not the root or tree option is not True; distinct by recipe hash")
 
 
 def mk_case(tree, target, opt, unrooted=None, prior=False):
